@@ -276,6 +276,17 @@ async fn check_c03(inner: &Arc<InMemory>, seeds: &[SeedChunk], original: &BTreeM
     if !foreign.is_empty() {
         sim::violation("C03/foreign-rows", format!("{} rows that were never stored are reachable", foreign.len()));
     }
+    // (iii') both backends, any number of merge steps: a merged chunk sits above every level its rows came from
+    for p in final_listed.iter().filter(|p| p.contains("/compacted/")) {
+        let mine: BTreeSet<i64> = idx.ids.get(p).map(|v| v.iter().cloned().collect()).unwrap_or_default();
+        let from: Vec<u32> = seeds.iter().filter(|s| !s.ids.is_empty() && s.ids.iter().all(|i| mine.contains(i))).map(|s| s.level).collect();
+        if let Some(mx) = from.iter().max() {
+            let lvl = level_of(local, inner, p).await;
+            if lvl <= *mx {
+                sim::violation("C03/merged-level-wrong", format!("merged chunk {} is at level {lvl} although its rows came from chunks of levels {:?}", short(p), from));
+            }
+        }
+    }
     // (ii') the reachable rows are the stored rows value for value (floats bit for bit), not only id for id
     if lost.is_empty() && dups.is_empty() && foreign.is_empty() {
         let want = multiset(seeds.iter().flat_map(|s| s.rows.iter().cloned()));
@@ -336,7 +347,7 @@ fn scen_c20(_spec: RunSpec) -> ScenFut {
         let use_local = sim::w_bool(35);
         let local = if use_local { Some(Arc::new(LocalMetadataClient::new())) } else { None };
         let mut cfg = draw_cfg();
-        cfg.l0_merge_threshold = sim::w_range(2, 5) as usize;
+        cfg.l0_merge_threshold = sim::w_range(1, 5) as usize;
         cfg.gc_grace_period = Duration::from_secs(300);
         sim::set_cfg(|c| {
             c.adv_pct = 0;
@@ -369,7 +380,11 @@ fn scen_c20(_spec: RunSpec) -> ScenFut {
             // (path, level, size) set; levels only on the object-store backend
             match &local {
                 Some(l) => {
-                    let mut v: Vec<(String, u32, u64)> = l.list_chunks().await.unwrap_or_default().into_iter().map(|e| (e.chunk_path, 0, e.size_bytes)).collect();
+                    let mut v: Vec<(String, u32, u64)> = Vec::new();
+                    for e in l.list_chunks().await.unwrap_or_default() {
+                        let lvl = level_of(Some(l.as_ref()), &inner, &e.chunk_path).await;
+                        v.push((e.chunk_path, lvl, e.size_bytes));
+                    }
                     v.sort();
                     v
                 }
@@ -445,6 +460,39 @@ fn scen_c20(_spec: RunSpec) -> ScenFut {
         }
         if cycle_errors > 0 {
             sim::probe_n("cycle-returned-error", cycle_errors);
+        }
+        // levels between consecutive cycles (both backends): a chunk that stays keeps or raises its level; the rows of
+        // a merged chunk sit one level above the highest level they came from (levels only move up)
+        {
+            let idx = FileIndex::build(&inner, &seeds).await;
+            for w in states.windows(2) {
+                let (a, b) = (&w[0], &w[1]);
+                let la: BTreeMap<&String, u32> = a.iter().map(|(p, l, _)| (p, *l)).collect();
+                for (p, l, _) in b.iter() {
+                    if p.contains("/dummy_") {
+                        continue;
+                    }
+                    match la.get(p) {
+                        Some(old) if l < old => sim::violation("C20/level-decreased", format!("{} went from level {old} to {l}", short(p))),
+                        Some(_) => {}
+                        None => {
+                            // a new (merged) chunk: its sources are the retired chunks whose rows it holds
+                            let mine: BTreeSet<i64> = idx.ids.get(p).map(|v| v.iter().cloned().collect()).unwrap_or_default();
+                            let src_levels: Vec<u32> = a
+                                .iter()
+                                .filter(|(q, _, _)| !b.iter().any(|(x, _, _)| x == q))
+                                .filter(|(q, _, _)| idx.ids.get(q).map(|v| !v.is_empty() && v.iter().all(|i| mine.contains(i))).unwrap_or(false))
+                                .map(|(_, l, _)| *l)
+                                .collect();
+                            if let Some(mx) = src_levels.iter().max() {
+                                if *l <= *mx {
+                                    sim::violation("C20/rows-moved-down-a-level", format!("merged chunk {} is at level {l} although it replaced chunks of levels {:?}", short(p), src_levels));
+                                }
+                            }
+                        }
+                    }
+                }
+            }
         }
         match first_unchanged {
             Some(f) if f + 1 < n0 + 2 => {}
